@@ -14,7 +14,7 @@ EXTENDS Naturals, Sequences, TLC
 
 \* the tuple an utterance depends on; in batch mode the CMN state at its start is irrelevant
 Key(cfg, gram, dict, cmn, audio, feed, batch) ==
-    IF batch THEN <<cfg, gram, dict, "batch", audio, feed>> ELSE <<cfg, gram, dict, cmn, audio, feed>>
+    IF batch THEN <<cfg, gram, dict, <<"batch">>, audio, feed>> ELSE <<cfg, gram, dict, cmn, audio, feed>>
 
 Agrees(seen, k, res) == k \notin DOMAIN seen \/ seen[k] = res
 Record(seen, k, res) == IF k \in DOMAIN seen THEN seen ELSE [x \in DOMAIN seen \cup {k} |-> IF x = k THEN res ELSE seen[x]]
